@@ -107,7 +107,7 @@ func VerifHarness_C10_bucket_mmap() {
 // read; and a .rev whose positions are wrong or out of range never makes
 // FindHash read out of range or name an object that is not at that offset.
 func VerifHarness_C10_escape_mmap() {
-	n := verifrt.Range(1, verifrt.Param("N"))
+	n := verifrt.Range(verifrt.Param("NMIN"), verifrt.Param("N"))
 	w := idxfile.VerifC10Build(idxfile.VerifC10Entries(n, true))
 	if verifrt.NondetBool() {
 		id, v, slots := w.VerifC10Corrupt()
@@ -118,7 +118,6 @@ func VerifHarness_C10_escape_mmap() {
 		verifrt.Reach("c10-escape-mmap")
 		off, err := s.FindOffset(verifC10ID(id))
 		w.VerifC10EscapeOracle(v, slots, off, err, "mmap")
-		_, _ = s.FindHash(verifrt.NondetUint64())
 		return
 	}
 	rev := w.VerifC10CorruptRev()
